@@ -7,6 +7,7 @@ import (
 	"encoding/binary"
 	"fmt"
 	"math"
+	"sync"
 	"testing"
 
 	"github.com/gcash/bchd/chaincfg/chainhash"
@@ -498,6 +499,83 @@ var kC09Murmur = register(&Kind[c09Murmur]{
 	},
 })
 
+// ---- kind: concurrent insertion -----------------------------------------------------------------
+// "Every inserted item is reported present" does not stop holding because two insertions happen at the same
+// time (the filter is documented safe for concurrent use; the interleavings proper are C20's subject): several
+// goroutines insert into one small filter at once, many times over; afterwards nothing may be missing and the
+// bit array is the OR of all insertions.
+
+type c09Conc struct {
+	Len    int    `json:"len"`
+	K      uint32 `json:"k"`
+	Tweak  uint32 `json:"tweak"`
+	N      int    `json:"items"` // item i (8 bytes derived from tweak and i) is inserted by goroutine i % G, once
+	G      int    `json:"goroutines"`
+	Rounds int    `json:"rounds"`
+	Method int    `json:"method"` // all items go in through Add (0), AddHash (1) or AddOutPoint (2)
+}
+
+func evalC09Conc(c c09Conc, o *Obs) error {
+	if c.Len < 1 || c.Len > 4096 || c.K < 1 || c.K > 50 || c.G < 2 || c.G > 16 || c.N < c.G || c.N > 20000 || c.Rounds < 1 || c.Rounds > 100000 {
+		return hbug("bad concurrent-insert case")
+	}
+	o.NT()
+	o.Class("C09:concurrent-insertion")
+	items := make([][]byte, c.N)
+	m := newRefBloom(c.Len, c.K, c.Tweak, 0)
+	for i := range items {
+		items[i] = derivedItem(c.Tweak, i)
+		switch c.Method {
+		case 1:
+			items[i] = toHash(items[i])[:]
+		case 2:
+			items[i] = outpointBytes(toHash(items[i])[:], uint32(i))
+		}
+		m.add(items[i])
+	}
+	for r := 0; r < c.Rounds; r++ {
+		f := bloom.LoadFilter(wire.NewMsgFilterLoad(make([]byte, c.Len), c.K, c.Tweak, wire.BloomUpdateNone))
+		var wg sync.WaitGroup
+		start := make(chan struct{})
+		for g := 0; g < c.G; g++ {
+			g := g
+			wg.Add(1)
+			go func() {
+				defer wg.Done()
+				<-start
+				for i := g; i < len(items); i += c.G {
+					switch c.Method {
+					case 0:
+						f.Add(items[i])
+					case 1:
+						f.AddHash(toHash(items[i]))
+					default:
+						f.AddOutPoint(wire.NewOutPoint(toHash(items[i][:32]), uint32(i)))
+					}
+				}
+			}()
+		}
+		close(start)
+		wg.Wait()
+		if got := f.MsgFilterLoad().Filter; !bytes.Equal(got, m.bits) {
+			return fmt.Errorf("filter(len=%d,k=%d): after %d goroutines inserted %d different items at the same time (round %d) the bit array is %x; the OR of all insertions is %x (an insertion was lost)",
+				c.Len, c.K, c.G, len(items), r, clip(got), clip(m.bits))
+		}
+	}
+	return nil
+}
+
+var kC09Conc = register(&Kind[c09Conc]{Prop: "C09", Name: "concurrent-insert", Eval: evalC09Conc,
+	Gen: func(t *rapid.T) c09Conc {
+		c := c09Conc{Len: rapid.SampledFrom([]int{8, 16, 64, 256}).Draw(t, "len"), K: uint32(rapid.IntRange(1, 3).Draw(t, "k")), Tweak: rapid.Uint32().Draw(t, "tweak"),
+			G: rapid.IntRange(2, 8).Draw(t, "g"), Rounds: pick(200, 2000), Method: rapid.IntRange(0, 2).Draw(t, "method")}
+		c.N = c.Len * 4 / int(c.K) // about half of the bits end up set: most insertions set a bit for the first time
+		if c.N < c.G {
+			c.N = c.G
+		}
+		return c
+	}})
+
 // ---- kind: sizing -------------------------------------------------------------------
 
 type c09Size struct {
@@ -583,6 +661,7 @@ func TestC09(t *testing.T) {
 		kC09.Run(t, ev, perShard(pick(3000, 2000000)))
 		kC09Murmur.Run(t, ev, perShard(pick(3000, 2000000)))
 		kC09Size.Run(t, ev, perShard(pick(2000, 1000000)))
+		kC09Conc.Run(t, ev, perShard(pick(36, 600)))
 		ev.requireClasses("C09:k=0", "C09:k=50", "C09:len-class=1", "C09:len-class=36000", "C09:reload", "C09:unload",
 			"C09:add-len%4=0", "C09:add-len%4=1", "C09:add-len%4=2", "C09:add-len%4=3", "C09:sized-nonempty", "C09:add-item>520-bytes")
 	})
